@@ -36,6 +36,28 @@ class SBytes:
     def __repr__(s): return f"SBytes(len={s.n},off={s.off})"
 class STxt(SBytes):
     """str obtained by decoding ASCII bytes: the same offset view, character k is the octet arr[off+k] (< 0x80)"""
+FSORT = z3.DeclareSort("PyFloat")           # IEEE-754 binary64 values as an abstract sort: float expressions are compared structurally
+F_OF_INT = z3.Function("float_of_int", z3.IntSort(), FSORT)                    # float(i), exact for |i| < 2^53
+F_CONST = z3.Function("float_const", z3.RealSort(), FSORT)                     # a Python float literal / constant, by its exact rational value
+F_MUL = z3.Function("float_mul", FSORT, FSORT, FSORT); F_ROUND = z3.Function("float_round", FSORT, z3.IntSort(), FSORT)
+F_DIV = z3.Function("float_div", FSORT, FSORT, FSORT); F_ADD = z3.Function("float_add", FSORT, FSORT, FSORT)
+F_OF_DEC = z3.Function("float_of_decimal", z3.IntSort(), z3.IntSort(), FSORT)  # float(Decimal(m) * 10**e), correctly rounded (assumed)
+class SFloat:
+    def __init__(s, e): s.e = e
+    def __repr__(s): return f"SFloat({s.e})"
+def to_float(v):
+    if isinstance(v, SFloat): return v.e
+    if isinstance(v, float):
+        n, d = v.as_integer_ratio(); return F_CONST(z3.RealVal(n) / z3.RealVal(d))
+    if isinstance(v, bool): raise TypeError("bool as float")
+    if isinstance(v, (int, SInt, SBV)): return F_OF_INT(to_int(v))
+    raise TypeError(f"to_float {v!r}")
+def float_binop(op, a, b, node):
+    x, y = to_float(a), to_float(b)
+    if isinstance(op, ast.Mult): return SFloat(F_MUL(x, y))
+    if isinstance(op, ast.Div): return SFloat(F_DIV(x, y))
+    if isinstance(op, ast.Add): return SFloat(F_ADD(x, y))
+    raise Unsupported(f"float operator {type(op).__name__} line {getattr(node, 'lineno', 0)}")
 class SOpt:
     """Optional[int]: isnone (z3 Bool) + val (z3 Int), split lazily at `is None` tests"""
     def __init__(s, isnone, val): s.isnone = isnone; s.val = val
@@ -60,7 +82,7 @@ _fresh = itertools.count()
 def fresh(prefix, sort):
     return z3.Const(f"{prefix}__{next(_fresh)}", sort)
 
-def is_sym(v): return isinstance(v, (SInt, SBV, SBool, SBytes, SOpt, SStr, SList))
+def is_sym(v): return isinstance(v, (SInt, SBV, SBool, SBytes, SOpt, SStr, SList, SFloat))
 
 _CUR = {"ctx": None, "st": None, "node": None}
 def to_int(v):
@@ -277,6 +299,28 @@ class Engine:
             outs = nxt
         return outs
 
+    def e_Lambda(s, e, st, ctx):
+        return [(st, ("closure", e, dict(st.locals), ctx.module, ctx.cls, ctx.qual))]
+    def x_FunctionDef(s, stmt, st, ctx):
+        st.locals[stmt.name] = ("closure", stmt, dict(st.locals), ctx.module, ctx.cls, ctx.qual); return [(st, NORMAL, None)]
+    def call_closure(s, clo, st, args, ctx, node):
+        _, fn, env, module, cls, qual = clo
+        params = [a.arg for a in fn.args.args]
+        if len(args) != len(params) or fn.args.vararg or fn.args.kwonlyargs: raise Unsupported(f"closure call arity line {node.lineno}")
+        if ctx.depth > 12: raise Unsupported("closure depth")
+        sub = Ctx(s, module, cls, qual, parent=ctx)
+        saved = st.locals; st.locals = {**env, **dict(zip(params, args))}
+        outs = []
+        if isinstance(fn, ast.Lambda):
+            for st1, v in s.eval(fn.body, st, sub):
+                st1.locals = dict(saved); outs.append((st1, v))
+            return outs
+        for st1, flow, val in s.exec_block(fn.body, st, sub):
+            st1.locals = dict(saved)
+            if flow in (NORMAL, RETURN): outs.append((st1, val if flow == RETURN else None))
+            elif flow == RAISE: outs.append((st1, val))
+            else: raise Unsupported(f"flow {flow} out of a nested function")
+        return outs
     def e_Constant(s, e, st, ctx): return [(st, e.value)]
     def e_Await(s, e, st, ctx):
         # sequential reading of a coroutine: `await x` evaluates x; what other tasks may do at the suspension point is the sidecar's rely condition
@@ -293,7 +337,7 @@ class Engine:
         if f"{ctx.module}.{e.id}" in s.classes: return [(st, ("class", f"{ctx.module}.{e.id}"))]
         if f"{ctx.module}.{e.id}" in s.funcs: return [(st, ("func", f"{ctx.module}.{e.id}"))]
         if e.id in ctx.imports: return [(st, ctx.imports[e.id])]
-        if e.id in ("range", "len", "bytes", "bytearray", "cast", "int", "bool", "super", "isinstance", "max", "min", "abs", "str", "float", "round", "next", "hasattr", "all", "any", "list", "hash"):
+        if e.id in ("range", "len", "bytes", "bytearray", "cast", "int", "bool", "super", "isinstance", "max", "min", "abs", "str", "float", "round", "next", "hasattr", "all", "any", "list", "hash", "enumerate", "zip", "tuple", "dict", "sorted", "reversed"):
             return [(st, ("builtin", e.id))]
         if e.id in s.exc_parents or e.id in ("ValueError", "Exception"): return [(st, ("excclass", e.id))]
         raise Unsupported(f"name {e.id} line {e.lineno}")
@@ -313,6 +357,8 @@ class Engine:
             cls = st.cls(base); flds = st.heap[base.oid][1]
             if attr in flds: return [(st, flds[attr])]
             q = s.lookup_method(cls, attr)
+            if q is None and attr.startswith("_") and "__" in attr[1:]:
+                q = s.lookup_method(cls, attr[attr.index("__", 1):])         # name-mangled private method
             if q:
                 fn = s.funcs[q][0]
                 decs = {ast.unparse(d) for d in fn.decorator_list}
@@ -437,6 +483,10 @@ class Engine:
         return outs
 
     def compare(s, op, a, b, st=None, ctx=None, node=None):
+        hook = getattr(s, "compare_hook", None)
+        if hook is not None:
+            r = hook(op, a, b)
+            if r is not None: return r
         if isinstance(op, (ast.In, ast.NotIn)):
             r = s.contains(a, b)
             if isinstance(op, ast.NotIn): r = (not r) if isinstance(r, bool) else SBool(z3.Not(r.e))
@@ -505,6 +555,12 @@ class Engine:
         return out
 
     def binop(s, op, a, b, node, st=None, ctx=None):
+        hook = getattr(s, "binop_hook", None)
+        if hook is not None:
+            r = hook(op, a, b, node, st, ctx)
+            if r is not None: return r
+        if isinstance(a, SFloat) or isinstance(b, SFloat) or (isinstance(a, float) and is_sym(b)) or (isinstance(b, float) and is_sym(a)):
+            return float_binop(op, a, b, node)
         if isinstance(a, (str, SStr)) and isinstance(b, (str, SStr)) and isinstance(op, ast.Add):
             if not is_sym(a) and not is_sym(b): return a + b
             return SStr(z3.Concat(to_str(a), to_str(b)))
@@ -655,9 +711,16 @@ class Engine:
         out = []
         for st1, f in s.eval(e.func, st, ctx):
             if isinstance(f, Raised): out.append((st1, f)); continue
-            for st2, vs in s.eval_seq(list(e.args) + [k.value for k in e.keywords], st1, ctx):
+            arg_exprs = [a.value if isinstance(a, ast.Starred) else a for a in e.args]
+            for st2, vs in s.eval_seq(arg_exprs + [k.value for k in e.keywords], st1, ctx):
                 if isinstance(vs, Raised): out.append((st2, vs)); continue
-                args = vs[:len(e.args)]; kw = {k.arg: v for k, v in zip(e.keywords, vs[len(e.args):])}
+                args = []
+                for a, v in zip(e.args, vs[:len(e.args)]):
+                    if isinstance(a, ast.Starred):
+                        if not isinstance(v, (tuple, list)): raise Unsupported("star-argument is not a concrete sequence")
+                        args += list(v)
+                    else: args.append(v)
+                kw = {k.arg: v for k, v in zip(e.keywords, vs[len(e.args):])}
                 out += s.apply(f, st2, args, ctx, e, kw)
         return out
 
@@ -670,6 +733,9 @@ class Engine:
                 if h is None: raise Unsupported(f"external call {f[1]} line {node.lineno}")
                 return h(s, st, args, kw, ctx, node)
             if kind == "abstract": return f[1](s, st, args, ctx, node)
+            if kind == "closure":
+                if kw: raise Unsupported("closure kwargs")
+                return s.call_closure(f, st, args, ctx, node)
             if kind == "noop": return [(st, None)]
             if kind == "bmeth": return s.bmeth(f[1], f[2], st, args, ctx, node, kw)
             if kind == "builtin": return s.builtin(f[1], st, args, ctx, node, kw)
@@ -691,6 +757,7 @@ class Engine:
             if isinstance(v, SStr): return [(st, SInt(z3.Length(v.e)))]
             if isinstance(v, SList): return [(st, SInt(v.n))]
             if isinstance(v, (list, tuple, str, bytes, dict)): return [(st, len(v))]
+            if hasattr(v, "py_len"): return [(st, v.py_len())]
             if isinstance(v, Ref):
                 q = s.lookup_method(st.cls(v), "__len__")
                 if q: return s.call(q, st, [v], ctx, node)
@@ -718,6 +785,26 @@ class Engine:
             c = z3.simplify(to_bool(args[0])); return [(st, True if z3.is_true(c) else False if z3.is_false(c) else SBool(c))]
         if name == "str" and len(args) == 1:
             return [(st, s.format_value(args[0]))]
+        if name == "enumerate" and 1 <= len(args) <= 2 and isinstance(args[0], (list, tuple)) and all(isinstance(a, int) for a in args[1:]):
+            return [(st, [(i, x) for i, x in enumerate(args[0], *args[1:])])]
+        if name == "zip" and args and all(isinstance(a, (list, tuple)) for a in args): return [(st, [tuple(t) for t in zip(*args)])]
+        if name == "round" and len(args) == 2 and isinstance(args[1], int):
+            if isinstance(args[0], SFloat): return [(st, SFloat(F_ROUND(args[0].e, z3.IntVal(args[1]))))]
+            if not is_sym(args[0]): return [(st, round(args[0], args[1]))]
+        if name == "float" and len(args) == 1:
+            if isinstance(args[0], (SInt, SBV)): return [(st, SFloat(F_OF_INT(to_int(args[0]))))]
+            if isinstance(args[0], SFloat): return [(st, args[0])]
+            if isinstance(args[0], (int, float)) and not isinstance(args[0], bool): return [(st, float(args[0]))]
+        if name == "abs" and len(args) == 1:
+            if not is_sym(args[0]): return [(st, abs(args[0]))]
+            x = to_int(args[0]); return [(st, SInt(z3.If(x >= 0, x, -x)))]
+        if name == "next" and 1 <= len(args) <= 2 and isinstance(args[0], list):
+            if args[0]: return [(st, args[0][0])]
+            if len(args) == 2: return [(st, args[1])]
+            return [(st, Raised("StopIteration"))]
+        if name in ("all", "any") and len(args) == 1 and isinstance(args[0], tuple) and args[0] and args[0][0] == "symgen":
+            _, sl, kvar, elt = args[0]; rng = z3.And(kvar >= 0, kvar < sl.n); c = to_bool(elt)
+            return [(st, SBool(z3.Exists([kvar], z3.And(rng, c)) if name == "any" else z3.ForAll([kvar], z3.Implies(rng, c))))]
         if name in ("all", "any") and len(args) == 1 and isinstance(args[0], (tuple, list)):
             parts = [to_bool(x) for x in args[0]]
             c = z3.simplify((z3.And if name == "all" else z3.Or)(*parts)) if parts else z3.BoolVal(name == "all")
@@ -760,11 +847,71 @@ class Engine:
             if hook is not None: hook(st, base, args[0], ctx, node)
             if isinstance(base, list): base.append(args[0])
             return [(st, None)]
+        if isinstance(base, str) and attr == "join" and len(args) == 1 and isinstance(args[0], (list, tuple)):
+            items = [s.format_value(x) if not isinstance(x, (str, SStr)) else x for x in args[0]]
+            if all(isinstance(x, str) for x in items): return [(st, base.join(items))]
+            parts = []
+            for i, x in enumerate(items):
+                if i: parts.append(z3.StringVal(base))
+                parts.append(to_str(x))
+            return [(st, SStr(z3.Concat(*parts)) if len(parts) > 1 else SStr(parts[0]))]
+        if isinstance(base, dict) and attr == "get" and 1 <= len(args) <= 2 and not is_sym(args[0]):
+            try: return [(st, base.get(args[0], args[1] if len(args) == 2 else None))]
+            except TypeError: raise Unsupported("dict.get key")
+        if isinstance(base, str) and attr in ("lower", "upper", "strip", "startswith", "endswith", "split", "splitlines", "find", "isdigit") and all(not is_sym(a) for a in args):
+            return [(st, getattr(base, attr)(*args))]
         if isinstance(base, list) and attr == "clear" and not args:
             base.clear(); return [(st, None)]
         h = s.prelude_methods.get(attr)
         if h is not None: return h(s, st, base, args, ctx, node)
         raise Unsupported(f"method {attr} line {node.lineno}")
+
+    def comprehension(s, e, st, ctx):
+        """[elt for x in <concrete list> if <concretely decidable cond>] evaluated eagerly (also for generator expressions)"""
+        if len(e.generators) != 1 or e.generators[0].is_async: raise Unsupported("nested comprehension")
+        gen = e.generators[0]; outs = []
+        for st0, it in s.eval(gen.iter, st, ctx):
+            if isinstance(it, Raised): outs.append((st0, it)); continue
+            if isinstance(it, dict): it = list(it)
+            if isinstance(it, SList) and not gen.ifs:
+                # generator over a symbolic-length list: kept lazy, element expression evaluated once at a bound index (used by any()/all())
+                kvar = fresh("k_gen", z3.IntSort()); saved_l = dict(st0.locals)
+                s.assign(gen.target, SInt(z3.Select(it.arr, kvar)), st0, ctx)
+                r = s.eval(e.elt, st0, ctx)
+                if len(r) != 1 or isinstance(r[0][1], Raised): raise Unsupported("generator element over a symbolic list forks or raises")
+                st0.locals = saved_l
+                outs.append((st0, ("symgen", it, kvar, r[0][1]))); continue
+            if not isinstance(it, (list, tuple)): raise Unsupported(f"comprehension over {it!r} line {e.lineno}")
+            frontier = [(st0, [])]
+            for item in it:
+                nxt = []
+                for st1, acc in frontier:
+                    if isinstance(acc, Raised): nxt.append((st1, acc)); continue
+                    saved = {k: st1.locals.get(k, "__absent__") for k in [n.id for n in ast.walk(gen.target) if isinstance(n, ast.Name)]}
+                    s.assign(gen.target, item, st1, ctx)
+                    conds = [(st1, True)]
+                    for cnd in gen.ifs:
+                        nc = []
+                        for st2, ok in conds:
+                            if ok is not True: nc.append((st2, ok)); continue
+                            for st3, c in s.eval(cnd, st2, ctx):
+                                if isinstance(c, Raised): nc.append((st3, c)); continue
+                                for st4, b in s.split(st3, c, check=True): nc.append((st4, b))
+                        conds = nc
+                    for st2, ok in conds:
+                        if isinstance(ok, Raised): nxt.append((st2, ok)); continue
+                        if ok is False: nxt.append((st2, acc)); continue
+                        for st3, v in s.eval(e.elt, st2, ctx):
+                            nxt.append((st3, v if isinstance(v, Raised) else acc + [v]))
+                    for st2, _ in nxt[-len(conds):] if conds else []:
+                        for k, v in saved.items():
+                            if v == "__absent__": st2.locals.pop(k, None)
+                            else: st2.locals[k] = v
+                frontier = nxt
+            outs += frontier
+        return outs
+    def e_ListComp(s, e, st, ctx): return s.comprehension(e, st, ctx)
+    def e_GeneratorExp(s, e, st, ctx): return s.comprehension(e, st, ctx)
 
     def e_Tuple(s, e, st, ctx):
         return [(st1, vs if isinstance(vs, Raised) else tuple(vs)) for st1, vs in s.eval_seq(e.elts, st, ctx)]
@@ -1064,6 +1211,10 @@ class Engine:
         if stmt.orelse: raise Unsupported("loop else")
         no = ctx.loop_ordinal(stmt)
         spec = s.loop_specs.get((ctx.qual, no))
+        sel = getattr(s, "loop_spec_selector", None)
+        if sel is not None:
+            r = sel(ctx.qual, stmt, no)
+            if r is not None: spec = r
         if spec is None: raise Unsupported(f"loop #{no} of {ctx.qual} needs an invariant")
         inv, dec, ltypes = spec[:3]; havoc_heap = spec[3] if len(spec) > 3 else None
         is_for = isinstance(stmt, ast.For)
